@@ -14,8 +14,9 @@ EXHAUSTIVE = {"quick": False, "thorough": False}
 SHARD = 4
 JOBS = 12
 COQ_IMPORTS = "From DS Require Import Model.ADD Spec.Count Model.Oracle."
-TRUSTED = ["compile() in the factor/leaf case is translation-validated per instance (compiled_ok evaluated in Coq on the "
-           "diagram and locations dumped from the implementation), not proved; scipy connected_components only through that"]
+TRUSTED = ["compile() in the factor/leaf case is translation-validated per instance (valid_compiled evaluated in Coq on the "
+           "diagram and locations dumped from the implementation; C09_oracle_exact_validated turns a true verdict into "
+           "exactness of the oracle model), not proved for all inputs; scipy connected_components only through that"]
 ASSUMPTIONS = ["positive conjunctive provenance (a row is present iff all its units are), binary candidates"]
 WORKER_TIMEOUT = 3000
 
@@ -164,10 +165,14 @@ MANIFEST = {
             "invalid when a boundary row is absent or a bound is exceeded), for every hypergraph, labels, distances, K, "
             "class count, target and boundary pair and every well-formed compiled diagram in unit order whose row "
             "locations are valid (>= 2 units; the one-unit case is F12); C09_oracle_chain_exact -- compile() in the chain "
-            "case (one unit per row) produces such a diagram, no further hypothesis; C09_spec_total (counts add up to "
-            "2^(units-1)). PARTIAL in one link: compile() in the leaf/factor case (stack/concatenate, non-identity variable "
-            "order) is not modelled; there the dumped diagram and locations are validated per instance by compiled_ok "
-            "inside Coq. Tied to the code at unit level: every target x boundary pair of every instance is queried; "
+            "case (one unit per row) produces such a diagram, no further hypothesis; C09_oracle_exact_any_order -- the same "
+            "for ANY order of the units over the levels (compile()'s leaf/factor case); C09_oracle_exact_validated -- "
+            "whenever the boolean valid_compiled (Model/Oracle.v: type, edge-value lengths, rectangular levels, reachable "
+            "nodes live and in range, zero edge values, unit order a permutation, one level per unit, row locations hit "
+            "exactly the assignments under which the row is present) is true, the oracle model is exact; C09_spec_total "
+            "(counts add up to 2^(units-1)). PARTIAL in one link: compile()'s leaf/factor construction (connected "
+            "components, leaf selection, stack/concatenate) is not modelled; its output is dumped on every instance and "
+            "valid_compiled is evaluated on it inside Coq -- translation validation backed by the theorem. Tied to the code at unit level: every target x boundary pair of every instance is queried; "
             "result dictionaries vs the oracle model on the dumped compiled diagram and vs the counting specification.",
     "note": "Trusted: Coq kernel + vm_compute; harness; compile() in the leaf/factor case validated per instance, not "
             "proved. F12 (one-unit instances) is an open known finding.",
